@@ -17,6 +17,9 @@ use crate::application::Application;
 use crate::controller::Controller;
 use crate::core::{New};
 use crate::header::Header;
+use crate::mime_type::MimeType;
+use crate::range::Range;
+use crate::symbol::SYMBOL;
 
 use crate::request::{Request};
 use crate::response::{Response, STATUS_CODE_REASON_PHRASE};
@@ -42,6 +45,10 @@ impl Application for App {
         );
 
 
+
+        if !request.request_uri.starts_with(SYMBOL.slash) {
+            return Ok(App::bad_request_target(response))
+        }
 
         if IndexController::is_matching(&request, connection) {
             response = IndexController::process(&request, response, connection);
@@ -99,6 +106,18 @@ impl Application for App {
 }
 
 impl App {
+    /// controllers resolve the request target against "http://localhost", only origin-form
+    /// targets (starting with a slash) are supported, anything else is answered with 400
+    fn bad_request_target(mut response: Response) -> Response {
+        let message = "request target must start with a slash";
+        response.status_code = *STATUS_CODE_REASON_PHRASE.n400_bad_request.status_code;
+        response.reason_phrase = STATUS_CODE_REASON_PHRASE.n400_bad_request.reason_phrase.to_string();
+        response.content_range_list = vec![
+            Range::get_content_range(Vec::from(message.as_bytes()), MimeType::TEXT_PLAIN.to_string())
+        ];
+        response
+    }
+
     pub fn handle_request(request: Request) -> (Response, Request) {
         let header_list = Header::get_header_list(&request);
 
@@ -109,6 +128,11 @@ impl App {
         );
 
 
+
+        if !request.request_uri.starts_with(SYMBOL.slash) {
+            response = App::bad_request_target(response);
+            return (response, request)
+        }
 
         if IndexController::is_matching_request(&request) {
             response = IndexController::process_request(&request, response);
